@@ -135,6 +135,14 @@ func (tb *ATable) RegisterPropertyCallback(
 			set = &base.callbacks
 		}
 	default:
+		// A renderer wrapper (TextTable, CSVTable, ...) embeds a Table and so is
+		// itself a Table: callbacks registered "on the table" through such a
+		// wrapper belong on the core table underneath, however deep the nesting.
+		if wrapper, ok := owner.(Table); ok {
+			if c := wrapper.Column(0); c != nil && c.ofTable != nil {
+				return tb.RegisterPropertyCallback(c.ofTable, when, target, theNewCallback)
+			}
+		}
 		return fmt.Errorf("do not know how to register callbacks for type %T", owner)
 	}
 	if set == nil {
